@@ -29,12 +29,12 @@ def worker(unit, emit):
     bnd = row.get('b', [0, 0, 0, 1])
 
     either = bool(row.get('either'))
-    pl = row.get('pl', [])
+    cat_pl = row.get('pl', [])
 
     def slicer(v):
         if conv == 'cat':    # payload = concatenation of slices of v (0-based [a, b), b <= 0 from the end); check slice from b
             ck2 = len(v) + bnd[2] if bnd[2] < 0 else bnd[2]
-            return ''.join(v[a:(len(v) + b if b <= 0 else b)] for a, b in pl), ck2, bnd[3]
+            return ''.join(v[a:(len(v) + b if b <= 0 else b)] for a, b in cat_pl), ck2, bnd[3]
         if conv != 'gen':
             return CONV[conv](v)
         pa, pb, ck, cn = bnd
@@ -69,7 +69,7 @@ def worker(unit, emit):
         is_synth = done > len(vals) + len(shapes)
         is_shape = len(vals) < done <= len(vals) + len(shapes)
         payload, lo, n = slicer(v)
-        base = {'m': name, 'fn': fn, 'conv': conv, 'v': lib.cps(v), 'b': bnd, 'pl': pl, 'either': either}
+        base = {'m': name, 'fn': fn, 'conv': conv, 'v': lib.cps(v), 'b': bnd, 'pl': cat_pl, 'either': either}
         r = lib.call(f, payload)
         gv = r['v'] if r['k'] == 'ret' and r['t'] == 'str' else []
         if not is_shape:
